@@ -63,7 +63,10 @@ def rep_value(torch, rep, x):
     return T(torch, x)
 
 
-def mk_spec(torch, F, env, rep='f64'):
+PREC_KEYS = {'diana_latency': ('both', 'in_only', 'a_only')}     # names under which a spec documents the activation precision
+
+
+def mk_spec(torch, F, env, rep='f64', keys='both'):
     """layer description for cost function F from an environment (dict of Fractions).  rep: how the numeric entries
     are represented — 'f64'/'f32' 0-dim tensors (what the NAS layers hand over), plain 'int' / 'float' (static
     descriptions), 'module': vars() of a real nn.Conv1d/Conv2d/Linear + the output shape of a real forward."""
@@ -74,6 +77,10 @@ def mk_spec(torch, F, env, rep='f64'):
     s = {'_parameters': {'bias': _BIAS if e['bias'] else None}, 'groups': int(e['groups']),
          'w_precision': cv(e['wp']), 'in_precision': cv(e['ip']), 'a_precision': cv(e['ip']),
          'w_theta_alpha': cv(e['theta'])}
+    if keys == 'in_only':
+        del s['a_precision']
+    elif keys == 'a_only':
+        del s['in_precision']
     cout_i = int(math.ceil(e['cout']))
     if F.kind == 'linear':
         s['in_features'], s['out_features'] = cv(e['cin']), cv(e['cout'])
@@ -110,10 +117,10 @@ def mk_spec_module(torch, F, e):
     return s
 
 
-def call(torch, F, env, rep='f64'):
+def call(torch, F, env, rep='f64', keys='both'):
     """-> (value as float | None, exception type name | None)"""
     try:
-        v = F.fn(mk_spec(torch, F, env, rep))
+        v = F.fn(mk_spec(torch, F, env, rep, keys))
     except Exception as ex:
         return None, type(ex).__name__
     return float(v), None
@@ -127,6 +134,38 @@ def rep_tol(F, e, v, rep):
     if v is not None and tol_for(F, e) == 0 and abs(v) < 2 ** 24 and float(v).is_integer() and all(Fraction(x).denominator == 1 for x in e.values()):
         return Fraction(0)
     return TOL20
+
+
+def all_pairs_walk(n):
+    """a walk over states 0..n-1 in which every ordered pair (a, b), a == b included, occurs as two consecutive steps
+    (Eulerian circuit of the complete digraph with loops, n*n + 1 steps)"""
+    out_edges = {a: list(range(n)) for a in range(n)}
+    stack, walk = [0], []
+    while stack:
+        a = stack[-1]
+        if out_edges[a]:
+            stack.append(out_edges[a].pop())
+        else:
+            walk.append(stack.pop())
+    return walk[::-1]
+
+
+def sequence_for(F, quick):
+    """call sequence for one cost function in ONE process: every ordered pair of (naming convention of the activation
+    precision, activation precision in {8, 4, 3}) occurs as two consecutive calls; weight precision and channel count
+    alternate so that consecutive descriptions differ.  -> [(env, keys)]"""
+    b = dict(bases_for(F, quick)[0], theta=Fraction(1))
+    convs = PREC_KEYS.get(F.spec, ('both', 'in_only'))
+    states = [(c, ip) for c in convs for ip in (8, 4, 3)]
+    seq = []
+    for i, st in enumerate(all_pairs_walk(len(states))):
+        conv, ip = states[st]
+        e = dict(b, ip=Fraction(ip), wp=Fraction(8 if i % 2 == 0 else 2))
+        if i % 3 == 1:
+            c = b['cout'] + 1
+            e.update(dict(cin=c, cout=c, groups=c) if F.dw else dict(cout=c))
+        seq.append((e, conv))
+    return seq
 
 
 def static_envs(F, quick):
@@ -269,14 +308,19 @@ FRACTIONAL_BITS = [Fraction(1, 2), Fraction(5, 2), Fraction(19, 4), Fraction(71,
 BOUNDARY_CH = [0, 1, 2, 3, 4, 5, 7, 8, 9, 15, 16, 17, 31, 32, 33, 47, 48, 49, 63, 64, 65, 95, 96, 97, 127, 128, 129, 130]
 
 
-def ch_values(quick, dense=True, frac=True):
+# fractional (relaxed) channel counts just below / above the tile multiples: k*16 -+ 2^-17 .. 2^-10 (7.6e-6 .. 1e-3), dyadic
+NEAR_TILE = sorted(Fraction(m) + sg * Fraction(1, 2 ** p) for m in (16, 32, 48, 64, 128) for p in (17, 15, 14, 12, 10) for sg in (-1, 1))
+TILED_SPECS = ('gap8_latency', 'ne16_latency', 'diana_latency')
+
+
+def ch_values(quick, dense=True, frac=True, near=False):
     ints = (list(range(0, 131)) if dense else BOUNDARY_CH) + [255, 256, 257, 511, 512, 513]
     if quick:
         fr = [Fraction(c) + f for c in (0, 1, 2, 3, 4, 7, 8, 15, 16, 17, 31, 32, 33, 63, 64, 65, 127, 128, 129)
               for f in (Fraction(1, 4), Fraction(1, 2), Fraction(3, 4))]
     else:
         fr = [Fraction(n, 4) for n in range(1, 521) if n % 4]
-    return sorted(set(Fraction(x) for x in ints) | (set(fr) if frac else set()))
+    return sorted(set(Fraction(x) for x in ints) | (set(fr) if frac else set()) | (set(NEAR_TILE) if near else set()))
 
 
 def bases_for(F, quick):
@@ -321,7 +365,7 @@ def sweeps_for(F, quick):
     os_ = [Fraction(x) for x in range(1, 34)]
     bits = sorted([Fraction(x) for x in (0, 1, 2, 3, 4, 6, 8, 16)] + FRACTIONAL_BITS)
     for bi, b in enumerate(bases_for(F, quick)):
-        chs = ch_values(quick, dense=(bi == 0 or not quick), frac=(bi <= 1 or not quick))   # quick: every channel count through the first base point, tile boundaries +-1 through the others
+        chs = ch_values(quick, dense=(bi == 0 or not quick), frac=(bi <= 1 or not quick), near=(not quick or (bi <= 1 and F.spec in TILED_SPECS)))   # quick: every channel count through the first base point, tile boundaries +-1 through the others
 
         def sw(var, vals, keys):
             envs = []
@@ -420,6 +464,7 @@ def helper_stream(ctx, torch, report, notes):
     ints = list(range(0, 131)) + [255, 256, 257, 511, 512, 513]
     fr = [Fraction(n, 4) for n in range(1, 140, 3) if n % 4] + [Fraction(n, 4) for n in (127, 129, 511, 513, 2047, 2049)]
     Ns = (2, 3, 4, 8, 16, 32, 128, 256, 512)
+    exact_on_fractions = {'ne16.FloorDivideSTE': lambda a, n: Fraction(math.floor(a / n)), 'ne16.ModuloSTE': lambda a, n: a - n * math.floor(a / n)}
     cdiv = lambda a, n: -((-a) // n)
     table = [
         ('gap8.FloorSTE', g8, 'FloorSTE', True, 'floor_ste', cdiv, 'ceil(ch/N)'),
@@ -437,7 +482,7 @@ def helper_stream(ctx, torch, report, notes):
             continue
         f = (lambda x, n, h=h: h.apply(x, n)) if is_ste else (lambda x, n, h=h: h(x, n))
         for n in Ns:
-            for c in ints + fr:
+            for c in ints + fr + (NEAR_TILE if n in (16, 32) else []):
                 try:
                     v = float(f(T(torch, c), n))
                 except Exception as ex:
@@ -445,6 +490,9 @@ def helper_stream(ctx, torch, report, notes):
                     continue
                 ctx.case(('helper', name, c, n), nontrivial=True, kind='helper:' + name,
                          sample={'helper': name, 'x': str(c), 'N': n, 'impl': v} if c == 33 and n == 4 else None)
+                if not isinstance(c, int) and name in exact_on_fractions and math.isfinite(v) and Fraction(v) != exact_on_fractions[name](Fraction(c), n):
+                    report('helper-not-exact:%s' % name, None, {'helper': name, 'x': str(c), 'N': n, 'value': v, 'required': str(exact_on_fractions[name](Fraction(c), n))},
+                           '%s(%s, %d) = %r but the exact %s = %s' % (name, c, n, v, what, exact_on_fractions[name](Fraction(c), n)))
                 if isinstance(c, int):
                     if v != exact(c, n):
                         report('helper-not-exact:%s' % name, None, {'helper': name, 'x': c, 'N': n, 'value': v, 'required': exact(c, n)},
@@ -552,7 +600,7 @@ def run(ctx):
     built = ctx.build(targets=['Gen/CostGen.vo', 'Props/C16.vo'])
     broken = {}                                   # obligation name -> reason
     for cn, why in res['errors'].items():
-        broken[cn + '_ok'] = why
+        broken[cn if cn.startswith('pin__') else cn + '_ok'] = why
     gen_obs = cost2coq.obligations(res)
     if not built and 'Gen/CostGen' in getattr(ctx, 'broken_log', ''):
         skip = diagnose_generated(ctx, res)
@@ -589,7 +637,7 @@ def run(ctx):
                         'float64 evaluation of the implementation: integer/dyadic results compared with =, MPIC / DIANA-analog within 2^-40, MPIC energy (float32 constant) within 2^-20']
     ctx.rule = ('every registered function of every spec in plinio.cost x base points (3 quick / 10 thorough) x one-dimensional sweeps: channels 0..130 (quick: through the first base point, multiples of 16 +-1 through the others) + {255..257, 511..513} + quarter-step '
                 'fractions (around tile boundaries quick / all thorough), kernel entries {1,3,5,7} (each and jointly), output sizes 1..33, bits {0,1,2,3,4,6,8,16} for weights and activations, '
-                'bias on/off, theta, groups; plus every function on integer-sized layers (base points, channel counts around tile sizes, one unsupported precision) described with plain ints, plain floats, float32 tensors and vars() of a real nn module + real forward shapes; non-integer bit-widths (0.5, 2.5, 4.75, 8.875, 8 -+ eps) as tensors and floats; every spec looked up (spec[(type, layer)](layer)) on dense / grouped / depthwise / one-to-one layers x kernels 1, 3, 5, mixed; one case = one call of a cost function (or STE helper); non-trivial = returns a cost > 0 or rejects; distinct by (function, arguments)')
+                'bias on/off, theta, groups; plus every function on integer-sized layers (base points, channel counts around tile sizes, one unsupported precision) described with plain ints, plain floats, float32 tensors and vars() of a real nn module + real forward shapes; non-integer bit-widths (0.5, 2.5, 4.75, 8.875, 8 -+ eps) as tensors and floats; relaxed channel counts k*16 -+ 2^-17..2^-10 next to the tile multiples (tiled models; all models in thorough); per function one in-process call SEQUENCE covering every ordered pair of (name of the activation-precision key, precision in {8,4,3}); every spec looked up (spec[(type, layer)](layer)) on dense / grouped / depthwise / one-to-one layers x kernels 1, 3, 5, mixed; one case = one call of a cost function (or STE helper); non-trivial = returns a cost > 0 or rejects; distinct by (function, arguments)')
 
     notes = ctx.notes
     fns, live_tables = load_fns(torch, res, notes)
@@ -640,6 +688,31 @@ def run(ctx):
                     if not (math.isfinite(v) and v >= 0 and (v > 0 or e['wp'] < 2 or e['ip'] < 2)):
                         report('not-finite-nonneg-positive:%s:%s' % (F.id, rep), F, dict(info, value=repr(v)),
                                '%s returned %r for the non-empty layer %s described with %s' % (F.id, v, jenv(e), REP_TEXT[rep]))
+    # call SEQUENCES in this one process: a cost function is a pure function of ONE layer description — what it returns
+    # (or whether it rejects) must not depend on the descriptions it was called with before
+    for F in fns:
+        first = {}
+        hist = []
+        for e, keys in sequence_for(F, quick):
+            v, exc = call(torch, F, e, 'f64', keys)
+            hist.append({'env': jenv(e), 'keys': keys})
+            cases.append((F, e, v, exc, 'f64'))
+            ctx.case((F.idx, 'seq', len(hist), envkey(e), keys), nontrivial=True, kind='sequence:%s:%s' % (keys, 'reject' if exc else 'value'),
+                     sample={'fn': F.id, 'step': len(hist), 'keys': keys, 'env': jenv(e), 'impl': v if exc is None else 'EXC:' + exc} if (F.spec == 'diana_latency' and len(hist) == 5) else None)
+            sup = supported(F, e)
+            info = {'env': jenv(e), 'keys': keys, 'sequence': list(hist)}
+            prev = hist[-2] if len(hist) > 1 else None
+            if exc is not None and sup is True:
+                report('raises-on-valid-layer-in-sequence:%s' % F.id, F, dict(info, exception=exc),
+                       '%s raised %s on the valid layer %s (activation precision given as %s) at step %d of a call sequence; previous call: %s' % (F.id, exc, jenv(e), keys, len(hist), prev))
+            elif exc is None and sup is False:
+                report('accepts-unsupported-precision-in-sequence:%s' % F.id, F, dict(info, value=v),
+                       '%s returned %r for the unsupported precision of %s (given as %s) at step %d of a call sequence; previous call: %s' % (F.id, v, jenv(e), keys, len(hist), prev))
+            k = envkey(e)
+            if k in first and first[k][0] != (v, exc is None):
+                report('outcome-depends-on-call-history:%s' % F.id, F, dict(info, value=v, exception=exc, first_outcome=first[k][0], first_step=first[k][1]),
+                       '%s gives %s for %s at step %d but gave %s for the same layer at step %d' % (F.id, v if exc is None else 'EXC:' + exc, jenv(e), len(hist), first[k][0], first[k][1]))
+            first.setdefault(k, ((v, exc is None), len(hist)))
     # every spec LOOKED UP (pattern + constraint resolution included) on layers at the intersections of the constraint
     # families: a valid layer of a kind the spec registers must get a finite non-negative cost, not an exception
     import plinio.cost as pc_
@@ -815,6 +888,27 @@ def replay(r):
     F = F[0]
     fe = lambda d: {k: Fraction(v) for k, v in d.items()}
     key = r.get('key', '')
+    if 'sequence' in c:
+        steps = c['sequence']
+        last = steps[-1]
+        rd, wr = os.pipe()
+        pid = os.fork()                         # the last description ALONE, in a process without history
+        if pid == 0:
+            os.close(rd)
+            os.write(wr, repr(call(torch, F, fe(last['env']), 'f64', last['keys'])).encode())
+            os._exit(0)
+        os.close(wr)
+        alone = eval(os.read(rd, 4096).decode(), {'nan': float('nan'), 'inf': float('inf')})
+        os.waitpid(pid, 0)
+        out = None
+        for i, st in enumerate(steps):
+            out = call(torch, F, fe(st['env']), 'f64', st['keys'])
+            print('step %2d  %s  keys=%-7s -> %s' % (i + 1, st['env'], st['keys'], out[0] if out[1] is None else 'raises ' + out[1]))
+        sup = supported(F, fe(last['env']))
+        print('last description alone (fresh process) -> %s;  supported: %s' % (alone[0] if alone[1] is None else 'raises ' + alone[1], sup))
+        print('required: the same outcome as alone; a valid layer is costed, an unsupported precision is rejected')
+        ok = (out[0], out[1] is None) == (alone[0], alone[1] is None) and not (sup is True and out[1] is not None) and not (sup is False and out[1] is None)
+        return 0 if ok else 1
     e = fe(c['env'])
     rep = c.get('representation', 'f64')
     v, exc = call(torch, F, e, rep)
